@@ -107,6 +107,9 @@ type WriterScn struct {
 	// error (a device that took the data and then failed to flush it).  Legal:
 	// io.Writer only demands an error when n < len(p).
 	Full bool `json:"full,omitempty"`
+	// GC: a garbage collection (finalizers included) runs between the failed
+	// Format and the healthy one that follows it
+	GC bool `json:"gc,omitempty"`
 }
 
 type RenderScn struct {
@@ -132,6 +135,9 @@ type WalkScn struct {
 	// walk of the same tree when the recorded walk starts (a caller that keeps
 	// one options value around)
 	Warm bool `json:"warm,omitempty"`
+	// GC: a garbage collection runs between the walks of the scenario (after
+	// the warm-up walk, before the sequel walk) and inside the first callback
+	GC bool `json:"gc,omitempty"`
 }
 
 type TaskScn struct {
